@@ -26,3 +26,36 @@ Definition run_epoch (prop : N) (cs : list run_epoch_case) : list (list N) :=
          (check_all Epoch.step (accept (epoch_scfg prop base ppl pl grace)) out_eqb 1
                     [(einit base ppl pl grace, sinit, snd (snd ic))]))
      (combine (map N.of_nat (seq 1 (length cs))) cs)).
+
+(* free-list pools: case = (kind, [numbers]), trace.
+   kind 1 dhcp4pool  [base; ppl; reslo; reshi; gw]     kind 2 v6addr [base; ppl]
+   kind 3 v6prefix   [base; ppl; dlen]                  kind 4 pppoe  [base; ppl; gw; idem]
+   kind 5 localpool  [base; ppl; gw] *)
+From Verif Require Import Model.FreeList.
+Definition run_freelist_case := ((N * list N) * list (op * out))%type.
+Definition fl_univ (k : N) (a : list N) : bool * list N :=
+  match k, a with
+  | 1, [base; ppl; reslo; reshi; gw] => (true, dhcp4_univ base ppl reslo reshi gw)
+  | 2, [base; ppl] => (true, v6addr_univ base ppl)
+  | 3, [base; ppl; dlen] => (true, v6prefix_univ base ppl dlen)
+  | 4, [base; ppl; gw; idem] => (negb (idem =? 0), pppoe_univ base ppl gw)
+  | 5, [base; ppl; gw] => (true, local_univ base ppl gw)
+  | _, _ => (true, [])
+  end.
+Definition run_freelist (prop : N) (cs : list run_freelist_case) : list (list N) :=
+  concat (map (fun ic : N * run_freelist_case =>
+     let '(idem, univ) := fl_univ (fst (fst (snd ic))) (snd (fst (snd ic))) in
+     map (fun row => match row with _ :: v => fst ic :: v | [] => [] end)
+         (check_all FreeList.step (accept (freelist_scfg prop univ)) out_eqb 1
+                    [(finit idem univ, sinit, snd (snd ic))]))
+     (combine (map N.of_nat (seq 1 (length cs))) cs)).
+
+(* hash allocation: case = (base as written, prefix length), trace *)
+From Verif Require Import Model.HashAlloc.
+Definition run_hash_case := ((N * N) * list (op * out))%type.
+Definition run_hash (prop : N) (cs : list run_hash_case) : list (list N) :=
+  concat (map (fun ic : N * run_hash_case =>
+     let c := {| h_base := fst (fst (snd ic)); h_ppl := snd (fst (snd ic)) |} in
+     map (fun row => match row with _ :: v => fst ic :: v | [] => [] end)
+         (check_all HashAlloc.step (accept (hash_scfg prop c)) out_eqb 1 [(hinit c, sinit, snd (snd ic))]))
+     (combine (map N.of_nat (seq 1 (length cs))) cs)).
